@@ -20,7 +20,8 @@
 (* so that a unit of branch length is one expected substitution.              *)
 EXTENDS Rational, TLC, Emit
 
-CONSTANTS Instances   \* sequence of model instances (defined in MC_MarkovQ.tla)
+CONSTANTS Instances,  \* sequence of model instances (defined in MC_MarkovQ.tla)
+          Refused     \* sequence of parameterisations a time-reversible class must REFUSE to build
 
 Nuc == <<"T", "C", "A", "G">>
 NucSet == {"T", "C", "A", "G"}
@@ -80,6 +81,7 @@ Holds(gc, pn, i, j) ==
           [] pn = "u_or"     -> {a, b} = {"A", "G"} \/ {a, b} = {"C", "T"}
           [] pn = "u_not_ac" -> ~({a, b} = {"A", "C"})
           [] pn = "u_fwd"    -> a = "A" /\ b = "G"
+          [] pn = "u_bwd"    -> a = "G" /\ b = "A"
 
 RECURSIVE Factor(_, _, _, _)
 Factor(gc, ps, i, j) == IF ps = <<>> THEN One
@@ -124,7 +126,17 @@ Compute(m) ==
     IN  [name |-> m.name, L |-> m.L, kind |-> m.kind, S |-> S, wp |-> wp, Q |-> Q, mu |-> mu,
          reversible |-> m.reversible, stationary |-> m.stationary]
 
-VARIABLES k, r   \* index into Instances; its computed report
+(* Admission rule of the time-reversible classes: every exchangeability term must apply to (i,j) exactly  *)
+(* when it applies to (j,i).  Two mirrored DIRECTED terms (A>G and G>A as separate parameters) touch the     *)
+(* same number of cells on both sides of the diagonal yet are not symmetric: with different values Q breaks  *)
+(* detailed balance (RefusalJustified), so the constructor has to refuse them.                               *)
+SymmetricTerms(m) == \A q \in 1..Len(m.params) : \A i, j \in SM(m) :
+                        Inst(i, j) => (Holds(m.gc, m.params[q][1], i, j) <=> Holds(m.gc, m.params[q][1], j, i))
+Admissible(m) == m.reversible => SymmetricTerms(m)
+BreaksDetailedBalance(m) == LET rep == Compute(m) IN
+                              \E i, j \in rep.S : RMul(rep.wp[i], rep.Q[i][j]) # RMul(rep.wp[j], rep.Q[j][i])
+
+VARIABLES k, r   \* index into Instances (then into Refused); the computed report of the instance
 vars == <<k, r>>
 
 Init == k = 1 /\ r = Compute(Instances[1])
@@ -140,7 +152,12 @@ Eval == EvalT /\ Emit([act |-> "Q", name |-> Instances[k].name, L |-> Instances[
                        pi |-> {<<w, Instances[k].pi[w]>> : w \in DOMAIN Instances[k].pi}, mu |-> r.mu,
                        wp |-> {<<w, r.wp[w]>> : w \in r.S},
                        cells |-> {<<c[1], c[2], r.Q[c[1]][c[2]]>> : c \in Cells(r)}])
-Next == Eval
+RefuseT == /\ k > Len(Instances) /\ k <= Len(Instances) + Len(Refused)
+           /\ k' = k + 1 /\ UNCHANGED r
+Refuse == RefuseT /\ LET m == Refused[k - Len(Instances)] IN
+              Emit([act |-> "Refuse", name |-> m.name, L |-> m.L, kind |-> m.kind, params |-> m.params, tag |-> m.tag, gc |-> m.gc,
+                    pi |-> {<<w, m.pi[w]>> : w \in DOMAIN m.pi}])
+Next == Eval \/ Refuse
 Spec == Init /\ [][Next]_vars
 
 ------------------------------------------------------------------------------
@@ -153,4 +170,7 @@ StationaryOK  == r.stationary =>
 DetailedBal   == r.reversible =>
                    \A i, j \in r.S : RMul(r.wp[i], r.Q[i][j]) = RMul(r.wp[j], r.Q[j][i])
 WordProbsSum  == RSumSet(r.S, r.wp) = One
+AdmittedAreAdmissible == \A q \in 1..Len(Instances) : Admissible(Instances[q])
+RefusedAreNot         == \A q \in 1..Len(Refused) : Refused[q].reversible /\ ~Admissible(Refused[q])
+RefusalJustified      == \A q \in 1..Len(Refused) : BreaksDetailedBalance(Refused[q])
 =============================================================================
